@@ -13,6 +13,7 @@ TraceSql == Range(Meta.sql)
 TraceRetention == Meta.retention
 TraceLookback == Meta.lookback
 TraceMaxPast == Meta.maxpast
+TraceU(c) == IF "users" \in DOMAIN Meta /\ c \in DOMAIN Meta.users THEN Meta.users[c] ELSE c
 TraceOOT == IF "oot" \in DOMAIN Meta THEN Meta.oot ELSE 100
 TraceMFD == IF "mfd" \in DOMAIN Meta THEN Meta.mfd ELSE 1000
 TraceDev == Range(Meta.dev)
@@ -50,7 +51,7 @@ PostOK(clx, evx, gix, procx, msgsx, c, g, p) ==
     /\ (gs.mls = "ok" /\ p.mls = "ok") =>
          \* (chain_ok = FALSE: the harness could not name the MLS state unambiguously; the epoch is still bound)
          /\ V("chain") => Chk("chain", c, (p.chain_ok => p.chain = gs.chain) /\ p.epoch = gix[g].base + Len(gs.chain), gs.chain)
-         /\ V("members") => Chk("members", c, Range(p.members) = s.members, s.members)
+         /\ V("members") => Chk("members", c, Range(p.members) = UsersOf(s.members), s.members)
          /\ V("pend") => Chk("pend", c, p.pend = (gs.pend # NoE), gs.pend)
          /\ V("props") => Chk("props", c, p.nprops = Cardinality(gs.props), gs.props)
          /\ V("mdata") => Chk("mdata", c, DataEq(s, p.mdata), s)
@@ -80,10 +81,11 @@ TMeta == R.op = "Reset" /\ Reset
 
 TCreate ==
     /\ R.op = "Create"
-    /\ CreateGroup(R.c, R.g, Range(R.members), Range(R.admins), R.nid, R.base)
+    /\ CreateGroup(R.c, R.g, Range(R.members), UsersOf(Range(R.admins)), R.nid, R.base)
     /\ \A i \in DOMAIN R.posts : PostOK(cl', ev', ginfo', proc', msgs', R.posts[i].c, R.g, R.posts[i].post)
 
-CommitArg == IF R.kind \in {"add", "remove", "admins", "relays"} THEN Range(R.arg)
+CommitArg == IF R.kind \in {"remove", "admins"} THEN UsersOf(Range(R.arg))       \* identities
+             ELSE IF R.kind \in {"add", "relays"} THEN Range(R.arg)
              ELSE IF R.kind = "self_update" THEN {} ELSE R.arg
 
 TCommit ==
@@ -170,7 +172,7 @@ TRaw ==
             ELSE IF R.kind = "prop_update" THEN ProposeUpdate(R.c, R.g, NM(R.e))
             ELSE DoCommitX(R.c, R.g, CASE R.kind = "admins_self" -> "admins" [] R.kind = "update_identity" -> "idchange" [] OTHER -> R.kind,
                            CASE R.kind = "remove" -> Range(R.arg)
-                             [] R.kind = "admins_self" -> GS(R.g, cl[R.c][R.g].chain).admins \cup {R.c}
+                             [] R.kind = "admins_self" -> GS(R.g, cl[R.c][R.g].chain).admins \cup {U(R.c)}
                              [] R.kind = "update_identity" -> [from |-> R.c, to |-> R.arg[1]]
                              [] OTHER -> R.arg,
                            NM(R.e), <<>>, TRUE)
